@@ -362,6 +362,47 @@ def doCgnSplit (l : Line) : Option String := do
   let st := (iter P.step n (P.init x0 (junk dw))).stopped || s.stopped
   some s!"ok log={showLog s.log} x={showVec s.x} stopped={st}"
 
+/-! ### Round 5 -/
+
+/-- `apgsplit pf= gg= gamma= x0= n= m=`: `accelerated_proximal_gradient` with `n` iterations, then a
+second call on the returned `x` with `m` iterations (`sqrt`: `ratSqrt`). -/
+def doApgSplit (l : Line) : Option String := do
+  let pf ← Line.pspec? l "pf"
+  let gg ← Line.pspec? l "gg"
+  let gamma ← l.rat? "gamma"
+  let x0 ← l.rats? "x0"
+  let n ← l.nat? "n"
+  let m ← l.nat? "m"
+  let P : ProxGradP Rat RV := ⟨pf.eval, gg.eval, gamma, fun _ => 1⟩
+  let (s, log) := P.accRunSplit ratSqrt x0 (junk x0.length) (junk x0.length) n m
+  some s!"ok log={showLog log} x={showVec s.x}"
+
+/-- `drsplit m= A0= At0= p0= [pl0=] … pf= tau= sigma= lam= x0= n= k=`: `douglas_rachford_pd` with `n`
+iterations, then a second call on the returned `x` with `k` iterations (`k=0`: a single call). -/
+def doDrSplit (l : Line) : Option String := do
+  let m ← l.nat? "m"
+  let As ← Line.family l "A" m parseRatMat
+  let Ats ← Line.family l "At" m parseRatMat
+  let ps ← Line.family l "p" m parsePSpec
+  let pf ← Line.pspec? l "pf"
+  let tau ← l.rat? "tau"
+  let sigma ← l.rats? "sigma"
+  let lam ← l.rat? "lam"
+  let x0 ← l.rats? "x0"
+  let n ← l.nat? "n"
+  let k ← l.nat? "k"
+  if sigma.length ≠ m then none
+  let P : DrP Rat RV RV :=
+    { m := m, L := fun i => Mat.mulVec (fam As [] i), Ladj := fun i => Mat.mulVec (fam Ats [] i),
+      proxF := pf.eval, proxGc := fun i => (fam ps .id i).eval, tau := tau, sigma := fam sigma 0,
+      lam := lam,
+      proxLc := match Line.family l "pl" m parsePSpec with       -- `pl0= …`: the `l` terms are given
+        | some pls => if m = 0 || (l.get? "pl0").isNone then none else some (fun i => (fam pls .id i).eval)
+        | none => none }
+  let v0 : Nat → RV := fun i => Vec.zero (Mat.rows (fam As [] i))
+  let s := P.runSplit (Vec.zero x0.length) v0 x0 n k
+  some s!"ok log={showLog s.log} x={showVec s.x}"
+
 def handle (l : Line) : Option String :=
   match l.op with
   | "admm" => doAdmm l
@@ -377,6 +418,8 @@ def handle (l : Line) : Option String :=
   | "pdhgacc" => doPdhgAcc l
   | "cgsplit" => doCgSplit l
   | "cgnsplit" => doCgnSplit l
+  | "apgsplit" => doApgSplit l
+  | "drsplit" => doDrSplit l
   | _ => none
 
 def main : IO Unit := driverLoop handle
